@@ -56,4 +56,9 @@ def run(prog: Program, col: Collector, tier: str, refs: Optional[Refs] = None, c
     c04._delta_integrate(prog, col, refs, cat)
     algebra.r_nested_fusion_same_red_op(prog, col, refs, cat, "R02.21")
     algebra.r_contraction_result_reduces(prog, col, refs, cat, "R02.22")
+    algebra.r_binary_rule_operand_order(prog, col, refs, cat, "R02.23")
+    from . import kernels
+    kernels.r_aligned_or_same_layout(prog, col, refs, cat, "R02.24")
+    kernels.r_unit_axis_padding(prog, col, refs, cat, "R02.25")
+    kernels.r_index_padding_count(prog, col, refs, cat, "R02.26")
     return col
